@@ -1,12 +1,12 @@
 # property -> (title, Proofs imports, [(theorem name, proofs file, lemma, comment)], intro comment)
-SPEC['C01'] = ('Top-down require returns what a from-scratch build would return', ['Local', 'Local2', 'History', 'ExecInv', 'ExecSession', 'Cert', 'Stable', 'Sim', 'C01Witness'], [
+SPEC['C01'] = ('Top-down require returns what a from-scratch build would return', ['Local', 'Local2', 'History', 'ExecInv', 'ExecSession', 'Cert', 'Stable', 'NoBug4', 'Sim', 'C01Witness', 'Final'], [
   ('C01_returns_cached_partial', 'Local2', 'make_consistent_returns_cached',
    'partial: whatever make_task_consistent returns is the cached output of the task, and the task is marked consistent for the session'),
   ('C01_reuse_needs_all_consistent_partial', 'Local', 'check_deps_inconsistent',
    'partial: a recorded resource dependency whose checker reports Inconsistent ends validation with "inconsistent" (no reuse)'),
 ], 'The full statement is proved for the class spelled out in the hypotheses of C01_incremental_equals_scratch (no target twice per execution, direct require of the generator before reading its product, exact write checkers, total stampers); programs outside that class (repeated targets, transitive generator requires, coarse write checkers) are decided by the correspondence run and the fresh-instance oracle.')
-SPEC['C02'] = ('Top-down build does no unnecessary work', ['Local', 'Local2', 'History', 'ExecInv', 'ExecSession', 'Justify'], [
-  ('C02_at_most_once_per_session', 'ExecSession', 'session_td_at_most_once',
+SPEC['C02'] = ('Top-down build does no unnecessary work', ['Local', 'Local2', 'History', 'ExecInv', 'ExecSession', 'Justify', 'Cert', 'Stable', 'NoBug4', 'Sim', 'Final'], [
+  ('C02_at_most_once_per_session', 'Final', 'session_at_most_once',
    'for ALL programs, checkers, fuel, stores satisfying the store invariants J (every store reachable by top-down histories does: C19_no_internal_error_all_histories) and ALL sessions of requires: the session event stream contains no task execution twice (also when the session ends in an abort)'),
   ('C02_executed_only_if_not_yet_consistent', 'ExecSession', 'session_require_execs',
    'every task executed by a require was not yet consistent (checked or executed) in this session when the require started, is executed once, and is consistent when the require returns'),
@@ -47,10 +47,10 @@ SPEC['C06'] = ('Overlapping writes are always detected', ['Local', 'History'], [
   ('C06_written_to_rejected', 'Local', 'sess_written_to_rejected', 'written_to aborts as well (the resource was already modified through create_writer)'),
   ('C06_abort_only_then', 'Local', 'sess_write_abort_only', 'a write aborts with overlap/hidden only when validate_write diagnoses it'),
 ], 'The single-writer invariant is proved over whole histories through the generic invariant principle (Inv.v, StoreInv.v, History.v); the only excluded outcome is the model-only abort ABug 4 (graph search fuel).')
-SPEC['C07'] = ('Cyclic task requirements are detected instead of recursing', ['Local', 'History', 'ExecInv', 'ExecSession'], [
+SPEC['C07'] = ('Cyclic task requirements are detected instead of recursing', ['Local', 'History', 'ExecInv', 'ExecSession', 'Cert', 'Stable', 'NoBug4', 'Sim', 'Final'], [
   ('C07_require_of_task_on_stack_aborts', 'ExecInv', 'require_on_stack_aborts',
    'the execution stack t :: S (t executing; each task below it requires the one above through a recorded edge): requiring ANY task on the stack, at any distance, aborts with a cyclic dependency before make_task_consistent is entered (ABug 4 = model-only graph search fuel)'),
-  ('C07_no_task_entered_twice', 'ExecSession', 'session_td_at_most_once',
+  ('C07_no_task_entered_twice', 'Final', 'session_at_most_once',
    'over whole sessions of requires, including the aborted ones: no task is executed a second time'),
   ('C07_stack_discipline', 'ExecInv', 'make_consistent_td_spec',
    'the induction behind both: make_task_consistent entered below a stack S never touches the recorded dependencies of a stack task, never executes or marks a stack task, and executes only tasks that were not consistent'),
@@ -58,7 +58,7 @@ SPEC['C07'] = ('Cyclic task requirements are detected instead of recursing', ['L
   ('C07_cycle_aborts_before_execution', 'Local', 'require_cycle_aborts',
    'if reserving the require edge is rejected as a cycle, require aborts with a cyclic dependency whatever make_task_consistent would do: it is never entered'),
 ], 'Together with C10 (add_edge rejects exactly when the destination reaches the source) this gives detection for cycles of any length; no re-entry is proved over whole top-down sessions (ExecInv.v); for bottom-up builds it is decided by correspondence + oracle.')
-SPEC['C08'] = ('Recorded dependencies are exactly those of the latest execution', ['Findings', 'Local2', 'History', 'ExecInv', 'ExecSession', 'Cert'], [
+SPEC['C08'] = ('Recorded dependencies are exactly those of the latest execution', ['Findings', 'Local2', 'History', 'ExecInv', 'ExecSession', 'Cert', 'Stable', 'NoBug4', 'Sim', 'Final'], [
   ('C08_general_refuted', 'Findings', 'C08_general_refuted', 'recorded finding (O7): with two different checkers on one target only the last require checker is kept'),
   ('C08_require_records_checker_and_stamp', 'Local2', 'update_require_dependency_done', 'a completed require records exactly DRequire t c stamp on the edge from the executing task'),
 ], 'PARTIAL: exactness over whole executions is decided by the store-dump correspondence and the op-log oracle.')
@@ -78,9 +78,9 @@ SPEC['C18'] = ('Checker errors during validation never cause stale reuse and are
   ('C18_td_error', 'Local', 'check_deps_error', 'top-down: an erring resource checker ends validation with "inconsistent", pushes the error, never aborts'),
   ('C18_bu_error', 'Local', 'try_schedule_error', 'bottom-up: an erring checker pushes the error and schedules the task'),
 ], 'For arbitrary checker records and worlds.')
-SPEC['C19'] = ('An aborted build leaves the Pie instance usable and sound', ['Local', 'History', 'ExecInv', 'ExecSession', 'Cert', 'Stable', 'Sim'], [
-  ('C19_no_internal_error_all_histories', 'ExecSession', 'history_td_no_internal_error',
-   'for ALL programs, checkers, fuel and ALL histories of top-down sessions and external changes from the empty store: every session result is a value, a user-level abort (task panic, cycle, hidden dependency, overlapping write) or out-of-fuel -- never one of the internal-invariant panics (ABug 1 reserved dependency checked, 2 consistent task without output, 3 require dependency missing, 5 edge without data) -- and the final store satisfies both store invariants (J), whatever aborted before. ABug 4 = model-only graph search fuel'),
+SPEC['C19'] = ('An aborted build leaves the Pie instance usable and sound', ['Local', 'History', 'ExecInv', 'ExecSession', 'Cert', 'Stable', 'NoBug4', 'Sim', 'Final'], [
+  ('C19_no_internal_error_all_histories', 'Final', 'history_sound',
+   'for ALL programs, checkers, fuel and ALL histories of top-down sessions and external changes from the empty store: every session result is a value, a user-level abort (task panic, cycle, hidden dependency, overlapping write) or out-of-fuel -- never one of the internal-invariant panics (ABug 1 reserved dependency checked, 2 consistent task without output, 3 require dependency missing, 5 edge without data) -- and the final store satisfies both store invariants (J), whatever aborted before. The model-only abort ABug 4 is proved unreachable (NoBug4.v, DagNoFuel.v)'),
   ('C19_abort_leaves_invariants', 'ExecSession', 'session_require_execs',
    'one require from any store satisfying J: if it aborts, the abort is user-level and J holds in the store left behind (reserved edges only leave tasks without output; consistent tasks have outputs), so the next session starts from J again'),
   ('C19_store_invariant_survives_aborts', 'History', 'run_history_ok', 'whatever aborts (task panic, cycle, hidden dependency, overlapping write, at any point), the world left behind satisfies the store invariant, from which every later session starts'),
@@ -104,11 +104,10 @@ RAW['C08'] = [
   ('C08_exact_record_all_histories',
    'for ALL programs of the class, checkers, fuel and ALL histories of top-down sessions and external changes from the empty store (also after aborted builds): for every task that has an output, the dependencies held by the store (row = edge data, kidsT = edge order) are EXACTLY the requires, reads and writes of one complete run of its program ending in that output: same targets in the same order, the checker that was passed, a stamp of the value that run saw; nothing left over (Rep is defined in Proofs/Cert.v)',
    CLASS_BINDERS + """  forall fuel h, td_hist h ->
-  ~ Exists (Exists bug4) (fst (run_history RC OC P always fuel init_world h)) ->
   forall t o, get_task_output (snd (run_history RC OC P always fuel init_world h)) t = Some o ->
     Rep RC OC sf (row (snd (run_history RC OC P always fuel init_world h)) t) (P t) [] o
         (kidsT (snd (run_history RC OC P always fuel init_world h)) t)""",
-   'intros RC OC P sf always HS HNR. exact (history_td_exact_record RC OC P sf HS HNR always).'),
+   'intros RC OC P sf always HS HNR. exact (exact_record_all RC OC P always sf HS HNR).'),
 ]
 
 C01_BINDERS = '''  forall (gen : res -> option task) (wck : rcid -> Prop)
@@ -121,15 +120,14 @@ C01_BINDERS = '''  forall (gen : res -> option task) (wck : rcid -> Prop)
 '''
 RAW['C01'] = [
   ('C01_incremental_equals_scratch',
-   'THE property: after ANY history h of top-down sessions and external changes from the empty store (every interleaving of edits, creations, deletions, overwrites of source and generated resources; aborted builds included), a session requiring ANY sequence of roots that returns on the incremental store returns exactly the outputs -- and leaves every resource with exactly the content -- that the same session produces on a fresh store holding the same resources (fresh_of), provided that from-scratch session returns too. For all programs of the class, all checkers satisfying the view conditions, all fuel. bug4 = model-only graph search fuel',
+   'THE property: after ANY history h of top-down sessions and external changes from the empty store (every interleaving of edits, creations, deletions, overwrites of source and generated resources; aborted builds included), a session requiring ANY sequence of roots that returns on the incremental store returns exactly the outputs -- and leaves every resource with exactly the content -- that the same session produces on a fresh store holding the same resources (fresh_of), provided that from-scratch session returns too. For all programs of the class, all checkers satisfying the view conditions, all fuel; no premise about the model-only abort (NoBug4.v)',
    C01_BINDERS + """  forall fuel fuel0 h ops, td_hist h -> td_only ops ->
-  ~ Exists (Exists bug4) (fst (run_history RC OC P always fuel init_world h)) ->
   let w := snd (run_history RC OC P always fuel init_world h) in
   let ra := run_session RC OC P always fuel (new_session w) ops in
   let rb := run_session RC OC P always fuel0 (new_session (fresh_of w)) ops in
   Forall is_done (fst ra) -> Forall is_done (fst rb) ->
   fst ra = fst rb /\\ forall r, get_content (snd ra) r = get_content (snd rb) r""",
-   'intros gen wck RC OC P sf always HS HWF HC HW HOC. exact (incremental_equals_scratch gen wck RC OC P sf HS HWF HC HW HOC always).'),
+   'intros gen wck RC OC P sf always HS HWF HC HW HOC. exact (incremental_equals_scratch_all RC OC P always gen wck sf HS HWF HC HW HOC).'),
   ('C01_simulation',
    'the induction behind it: make_task_consistent on the incremental store (run A: K = every recorded dependency list is a complete run of its program, C08) and on a from-scratch store (run B) started in Sim-related worlds (same resource contents, same consistent set, same outputs of consistent tasks) return the same output and end in Sim-related worlds -- below any execution stacks, for any two fuels',
    C01_BINDERS.replace(' (always : ocid),', ',') + """  forall f, SIMMC RC OC P sf f""",
